@@ -67,7 +67,8 @@ def _z(x):
   return x.z if isinstance(x, SymInt) else z3.IntVal(int(x))
 
 
-def _check_large(e, pattern, bufs, ns, calls, out, L2):
+def _check_large(e, pattern, bufs, ns, calls, out, L2, labels=None):
+  labels = labels or [f'buf_{i}' for i in range(len(pattern))]
   e.reach('serialized')
   e.check('C16.two_serialisation_passes', len(calls) == 2)
   # (a) what the serializer sees is the same in both passes except for the
@@ -92,9 +93,9 @@ def _check_large(e, pattern, bufs, ns, calls, out, L2):
       e.check('C16.final.none_buffer_untouched',
               z3.And(_z(b.offset) == 0, _z(b.size) == 0, b.data is None))
       e.check('C16.final.none_buffer_not_appended',
-              f'buf_{i}' not in out.labels())
+              labels[i] not in out.labels())
       continue
-    pos = out.position_of(f'buf_{i}')
+    pos = out.position_of(labels[i])
     if pos is None:
       # kept inside the flatbuffer: legitimate only for an empty buffer,
       # which must then be serialised exactly like the ordinary path does
@@ -104,7 +105,7 @@ def _check_large(e, pattern, bufs, ns, calls, out, L2):
                      calls[1][i][0] is not None))
       continue
     e.check('C16.final.buffer_appended_once',
-            out.labels().count(f'buf_{i}') == 1)
+            out.labels().count(labels[i]) == 1)
     e.check('C16.final.external_buffer_removed_from_flatbuffer',
             calls[1][i][0] is None and b.data is None)
     p, n = pos
@@ -195,7 +196,9 @@ def h_large_history(pattern, fix=None):
     e.assume(_z(L1) >= 8)
     L2 = L1
     ns, bufs = {}, []
-    for i, has in enumerate(pattern):
+    referenced = [p != 'U' for p in pattern]
+    pattern_b = [bool(p) for p in pattern]
+    for i, has in enumerate(pattern_b):
       if has:
         ns[i] = (SymInt.fresh(f'n_{i}_q', 0) * 16
                  + SymInt.fresh(f'n_{i}_r', 0, 15))
@@ -204,12 +207,14 @@ def h_large_history(pattern, fix=None):
         bufs.append(_Buf(None))
     for name, val in (fix or {}).items():
       e.assume(e.inputs[name] == val)
-    # at least one byte of constants, so that the lowered threshold (-1 is
-    # below every total) is not what decides the path
     calls = []
+    all_bufs = list(bufs)
+
+    objs = []
 
     def convert(m):
       calls.append([(b.data, b.offset, b.size) for b in m.buffers])
+      objs.append(list(m.buffers))
       return SegBytes([(f'fb{len(calls)}', L1 if len(calls) == 1 else L2)])
 
     stub_fu = types.SimpleNamespace(
@@ -220,7 +225,22 @@ def h_large_history(pattern, fix=None):
     seen = {}
 
     def pcm(self, quantized_model):
+      # the rewritten model the serialisation step sees: these buffers, one
+      # tensor per referenced buffer (pattern 'U' = a buffer with data that
+      # no tensor refers to), nothing else
+      from ai_edge_litert import schema_py_generated as S_
       quantized_model.buffers = bufs
+      sg = quantized_model.subgraphs[0]
+      sg.tensors = []
+      for i, ref in enumerate(referenced):
+        if ref:
+          t = S_.TensorT()
+          t.name, t.buffer, t.shape, t.type = f't{i}'.encode(), i, [1], 0
+          sg.tensors.append(t)
+      sg.operators, sg.inputs, sg.outputs = [], [], []
+      quantized_model.subgraphs = [sg]
+      quantized_model.metadata = []
+      quantized_model.signatureDefs = []
       seen['total'] = orig(self, quantized_model)
       return seen['total']
     try:
@@ -247,7 +267,23 @@ def h_large_history(pattern, fix=None):
     e.check('C16.history.large_path_taken', isinstance(out, SegBytes))
     if not isinstance(out, SegBytes):
       return
-    _check_large(e, pattern, bufs, ns, calls, out, L2)
+    # the buffers the serializer is shown (a clean-up step may legitimately
+    # have dropped the unreferenced one - then from BOTH passes, and what is
+    # left must still get its own bytes)
+    same_list = len(objs) == 2 and [id(b) for b in objs[0]] == [
+        id(b) for b in objs[1]] and all(
+            any(b is a for a in all_bufs) for b in objs[0])
+    e.check('C16.pass.same_buffers_in_both_passes', same_list,
+            info=[[len(c) for c in calls], len(all_bufs)])
+    if not same_list:
+      return
+    idx = [next(i for i, a in enumerate(all_bufs) if a is b) for b in objs[0]]
+    for i, ref in enumerate(referenced):
+      e.check('C16.history.referenced_buffer_kept', (not ref) or i in idx,
+              info=[i])
+    _check_large(e, [pattern_b[i] for i in idx], [all_bufs[i] for i in idx],
+                 {k: ns[i] for k, i in enumerate(idx) if i in ns}, calls, out,
+                 L2, labels=[f'buf_{i}' for i in idx])
   return h
 
 
@@ -264,7 +300,7 @@ def job_large(job):
   en.explore((h_large_history if hist else h_large)(pattern,
                                                      job.args.get('fix')))
   tag = ('hist/' if hist else 'large/') + ''.join(
-      '1' if p else '0' for p in pattern)
+      'U' if p == 'U' else '1' if p else '0' for p in pattern)
   r = result_from_engines(job.name, [(tag, en)], _to_candidate)
   r.samples = [('second quantize() of a used Quantizer: ' if hist else '') +
                f'buffers {pattern} (True=has data, symbolic length); '
@@ -446,9 +482,11 @@ def jobs(tier, seed):
       else:
         js.append(Job(name, job_large, {'pattern': list(pattern)}))
   # the same obligations on the second quantize() of a used Quantizer
-  hist_patterns = [(True,), (True, False), (False, True)]
+  hist_patterns = [(True,), (True, False), (False, True),
+                   (False, 'U', True), (False, True, 'U')]
   for pattern in hist_patterns:
-    name = 'hist:' + ''.join('1' if p else '0' for p in pattern)
+    name = 'hist:' + ''.join('U' if p == 'U' else '1' if p else '0'
+                             for p in pattern)
     for r in range(16):
       js.append(Job(f'{name}:shard{r}', job_large,
                     {'pattern': list(pattern), 'history': True,
@@ -459,13 +497,14 @@ def jobs(tier, seed):
                     {'pattern': [True, True], 'history': True,
                      'fix': {'L1_r': vals[0], 'n_0_r': vals[1]}}))
   cases = [[8], [4, 12], [16, 4, 20], [4, None, 8], [0], [4, 0], [1],
-           [1, 8], [3, 1, 5], [2, 17]]
-  fixtures = [('single_fc_bias.tflite', None), ('conv_fc_mnist.tflite', None)]
+           [1, 8], [3, 1, 5], [2, 17], ['U16', 8], [4, 'U3', 8, 12]]
+  fixtures = [('single_fc_bias.tflite', None), ('conv_fc_mnist.tflite', None),
+              ('two_signatures.tflite', None)]
   if tier == 'thorough':
     cases += [[4] * 5, [36, 4, 4, 64], [None, 4], [1, 1], [15, 16, 17],
               [31, 1, 33]]
     fixtures += [('weight_sharing_fcs.tflite', None),
-                 ('two_signatures.tflite', None),
+                 ('branching_conv_fc.tflite', None),
                  ('embedding_lookup.tflite', None), ('bmm.tflite', None)]
   js.append(Job('concrete', job_concrete, {'cases': cases,
                                            'fixtures': fixtures}))
@@ -489,6 +528,12 @@ def replay(c):
         return True, 'large-model path on a used Quantizer', (
             f'{name}: quantize(WO) then quantize(WO4) through the large-model '
             f'path on one Quantizer: {probs[:3]}')
+    from symx import skeletons
+    for lens in (['U16', 8], [8, 'U5', 12]):
+      probs = compare_large_small(skeletons.const_buffers_model(lens, raw=True))
+      if probs:
+        return True, 'large-model path, model with an unreferenced buffer', (
+            f'synthetic model with buffers {lens}: {probs[:3]}')
     return False, 'history', 'public-API history reproduces no difference'
   pattern = [ch == '1' for ch in d['tag'].split('/')[1]]
   lens = []
